@@ -22,7 +22,8 @@ class ConcreteCtx:
 
     def real(self, name, lo=None, hi=None, npf=False, lo_strict=False, hi_strict=False):
         if name not in self.model:
-            raise ReplayAssumeFailed('model has no value for %s' % name)
+            # an input created after the violated obligation: any admissible value will do
+            self.model[name] = (lo + hi) / 2.0 if (lo is not None and hi is not None) else (lo if lo is not None else (hi if hi is not None else 1.0))
         v = float(self.model[name])
         if lo is not None and (v < lo or (lo_strict and v == lo)):
             raise ReplayAssumeFailed('%s=%r below bound' % (name, v))
@@ -33,7 +34,7 @@ class ConcreteCtx:
 
     def int(self, name, lo=None, hi=None):
         if name not in self.model:
-            raise ReplayAssumeFailed('model has no value for %s' % name)
+            self.model[name] = lo if lo is not None else (hi if hi is not None else 0)
         v = int(self.model[name])
         if (lo is not None and v < lo) or (hi is not None and v > hi):
             raise ReplayAssumeFailed('%s=%r outside bound' % (name, v))
